@@ -29,6 +29,21 @@ theorem head_ok_inv {cfg : Cfg} {url : Bytes → Bytes → Option UrlView} {buf 
        rename_i hr hhdr _ _ _ _ _ _
        refine ⟨by simp_all, by simp_all, rfl, rfl, rfl, rfl, rfl, hr, hhdr, rfl, by simp_all, by simp_all⟩)
 
+/-- the versions that get past `buildHttpRequest`: HTTP/1.x and HTTP/0.9 -/
+theorem head_ok_version {cfg : Cfg} {url : Bytes → Bytes → Option UrlView} {buf rest : Bytes} {es : List Entry} {cl : Int}
+    {vmaj vmin : Nat} {m u : Bytes} {keep : Bool} (h : head cfg url buf = .ok rest es cl vmaj vmin m u keep) :
+    vmaj = 1 ∨ (vmaj = 0 ∧ vmin = 9) := by
+  unfold head at h
+  generalize Http1.parse cfg.h1 {} buf = st at h ⊢
+  dsimp only at h
+  repeat' (split at h)
+  all_goals first
+    | (simp at h; done)
+    | (simp only [Head.ok.injEq] at h
+       obtain ⟨rfl, rfl, rfl, rfl, rfl, rfl, rfl, rfl⟩ := h
+       rename_i hv _ _ _ _ _ _
+       omega)
+
 /-! ### framing facts of an accepted header (from C26) -/
 
 def isTe (e : Entry) : Bool := e.id == idTransferEncoding
